@@ -1,4 +1,5 @@
 CONSTANTS Chars <- CharsQuick
+          DedupByConcat = FALSE
           MaxWord = 3
           MaxDict = 0
           MaxBound = 2
